@@ -568,6 +568,7 @@ func init() {
 		}
 		x.defNat("globCacheBuiltFromConfig", uint64(uses))
 		c15EmitIndexGuards(x, append(c15Reachable(x, "config", Load), c15Reachable(x, "config", pf)...))
+		c15EmitListenFacts(x)
 		return nil
 	})
 }
